@@ -21,10 +21,12 @@ TIERS = {
 KINDS = ["copy", "set_origin", "set_sampling", "set_units", "set_name", "set_array", "pad", "crop",
          "bin", "resample", "getitem", "rejected"]
 RULE = ("one evaluation = one seeded history (depth <= 12) over Dataset/Dataset2d/3d/4d/4dstem "
-        "construction (ndim 1-5, length-1 axes, int/float/complex dtypes), copy, calibration/array "
+        "construction (ndim 1-5, length-1 axes, occasionally an axis of 16-256, int/uint/float/"
+        "float16/complex/bool dtypes, C/Fortran/strided/read-only/negative-stride input), copy, calibration/array "
         "setters, pad, crop, bin, fourier_resample (each executed BOTH as copying variant on the "
         "working dataset and as in-place variant on a copy, results compared), indexing (ints, "
-        "slices with +/- steps, one list, Ellipsis, partial tuples; NumPy is the specification) "
+        "slices with +/- steps and Python or NumPy-integer members, one list incl. negative "
+        "elements, Ellipsis, partial tuples; NumPy is the specification) "
         "and rejected operations; the working variable is re-bound to results so dimensionality "
         "changes flow on. Run i < |K|^2 (quick) / |K|^3 (thorough) starts with the i-th ordered "
         "pair/triple of operation kinds (coverage steering), the rest is free sampling. "
